@@ -225,7 +225,7 @@ class MomentumEquationPressureGradient(Equation):
              d_awp, DWIJ):
         rhoi2 = 1.0 / (d_rho[d_idx] * d_rho[d_idx])
         rhoj2 = 1.0 / (s_rho[s_idx] * s_rho[s_idx])
-        mj = s_m[d_idx]
+        mj = s_m[s_idx]
 
         pij = -1.0 * mj * (d_p[d_idx] * rhoi2 + s_p[s_idx] * rhoj2)
         d_aup[d_idx] += pij * DWIJ[0]
